@@ -277,6 +277,10 @@ pub fn setup(rng: &mut Rng, columns: u32, lines: u32, prof: &Profile) -> Vec<Op>
         };
         ops.push(Op::Api(Call::CursorPosition(Some(y), Some(x))));
     }
+    // the embedder has usually consumed the dirty set
+    if rng.below(100) < 60 {
+        ops.push(Op::ClearDirty);
+    }
     ops
 }
 
